@@ -65,11 +65,11 @@ BuiltMatches(p) ==
   LET want == Proj IN
   /\ p.len = Len(arena)
   /\ Len(p.terms) = Len(arena)
-  /\ (Focus \in {"C01", "C15"}) =>
+  /\ (Focus \in {"C01", "C14", "C15"}) =>
        /\ {StructOf(t) : t \in Range(p.terms)} = {StructOf(t) : t \in Range(want.terms)}
        /\ \A t \in Range(p.terms) : LoggedStructOk(t)
-  /\ (Focus = "C03") => p.ic_bad = <<>>        \* IC = -ln(n/N) on the ontology's own n and N (checked by the recorder)
-  /\ (Focus \in {"C02", "C15"}) =>
+  /\ (Focus \in {"C03", "C14"}) => p.ic_bad = <<>>        \* IC = -ln(n/N) on the ontology's own n and N (checked by the recorder)
+  /\ (Focus \in {"C02", "C14", "C15"}) =>
        /\ {AnnOf(t) : t \in Range(p.terms)} = {AnnOf(t) : t \in Range(want.terms)}
        /\ \A t \in Range(p.terms) : LoggedAnnOk(t)
        /\ p.gene = want.gene /\ p.omim = want.omim /\ p.orpha = want.orpha
@@ -100,21 +100,21 @@ SubMatches(ev) ==
   /\ \E ch \in [leaves -> AllPaths] :
         /\ \A lf \in leaves : ch[lf] \in ShortestUpPaths(parents, lf, root)
         /\ T = leaves \cup UNION {Range(ch[lf]) : lf \in leaves}
-  /\ (Focus \in {"C01", "C15"}) =>
+  /\ (Focus \in {"C01", "C14", "C15"}) =>
        \A t \in T :
           /\ par[t] = parents[t] \cap T                                  \* induced is_a edges
           /\ Range(term(t).children) = ChildrenOf(par, t)                \* inverse relation
           /\ Range(term(t).allp) = Anc(par, t)                           \* closure inside the sub-ontology
           /\ LoggedStructOk(term(t))
-  \* growth beyond the listed properties: WHICH records a sub-ontology keeps.  The crate keeps a record iff it is
-  \* directly annotated to a retained term that has no modifier root among its (source) ancestors; modifier roots
-  \* exist only when the source was built with the documented defaults (children of HP:1 other than HP:118).
-  /\ (Focus = "EXTRA") =>
+  \* C14: WHICH records a sub-ontology keeps: a record is kept iff it is directly annotated to a retained term that
+  \* is not a modifier term (the term is, or descends from, a modifier root); modifier roots exist only when the
+  \* source was built with the documented defaults (children of HP:1 other than HP:118).
+  /\ (Focus \in {"C14", "EXTRA"}) =>
        LET mods   == IF ev.defaults THEN children[1] \ {118} ELSE {}
-           phenoT == {t \in T : allp[t] \cap mods = {}}
+           phenoT == {t \in T : (allp[t] \cup {t}) \cap mods = {}}
        IN \A k \in Kinds : {r.id : r \in Range(recsOf(k))} = {x \in DOMAIN rec[k] : rec[k][x].hpos \cap phenoT # {}}
-  /\ (Focus = "C03") => p.ic_bad = <<>>
-  /\ (Focus \in {"C02", "C15"}) =>
+  /\ (Focus \in {"C03", "C14"}) => p.ic_bad = <<>>
+  /\ (Focus \in {"C02", "C14", "C15"}) =>
        /\ \A k \in Kinds : \A r \in Range(recsOf(k)) :
              /\ r.id \in DOMAIN rec[k]                                    \* only records of the source
              /\ Range(r.hpos) = rec[k][r.id].hpos \cap T                  \* direct terms, restricted to the sub-ontology
